@@ -198,7 +198,8 @@ Definition delete_unlink_fails (content : node -> list node) (isman : node -> bo
    documented responsibility of the caller. *)
 Record astore := mkA { a_s : ostore; a_auto : bool }.
 Definition empty_astore : astore := mkA empty_store true.
-Inductive aop := AOp (o : oop) | ASetAuto (v : bool) | ASaveIndex.
+Inductive aop := AOp (o : oop) | ASetAuto (v : bool) | ASaveIndex
+| ABadPush (n : node).   (* Push of a manifest whose bytes do not decode *)
 Definition keep_disk (s s' : ostore) : ostore :=
   mkO (o_blobs s') (o_bydigest s') (o_tagged s') (o_graph s') (o_dbydigest s) (o_dtagged s).
 Definition synced_b (s : ostore) : bool :=
@@ -209,6 +210,9 @@ Definition astep (content : node -> list node) (isman : node -> bool) (fuel : na
   match o with
   | ASetAuto v => (mkA (a_s a) v, true)
   | ASaveIndex => (mkA (osave (a_s a)) (a_auto a), true)
+  (* oci.go Push: storage.Push stores the blob, graph.Index fails in content.Successors,
+     the blob is deleted again and the error returned: nothing has changed *)
+  | ABadPush _ => (a, true)
   | AOp op =>
       let (s', ok) := ostep true true true content isman fuel (a_s a) op in
       match op with
